@@ -183,6 +183,10 @@ class LoopMixin:
                 elif isinstance(n, ast.Call) and isinstance(n.func, ast.Attribute) and isinstance(n.func.value, ast.Name) \
                         and n.func.attr in ("append", "extend", "pop", "insert", "remove", "clear", "sort", "reverse", "update"):
                     mutated.add(n.func.value.id)
+                elif isinstance(n, ast.Call) and isinstance(n.func, ast.Attribute) and isinstance(n.func.value, ast.Attribute) \
+                        and isinstance(n.func.value.value, ast.Name) \
+                        and n.func.attr in ("append", "extend", "pop", "insert", "remove", "clear", "sort", "reverse", "update"):
+                    fields.add((n.func.value.value.id, n.func.value.attr))      # obj.field.append(..): the list held by the field changes
                 elif isinstance(n, ast.Delete):
                     for t in n.targets:
                         if isinstance(t, ast.Subscript) and isinstance(t.value, ast.Name):
@@ -290,7 +294,18 @@ class LoopMixin:
             v = st.env.get(obj)
             if isinstance(v, Ref) and isinstance(st.deref(v), ObjV):
                 o = st.deref(v)
-                o.fields[attr] = self.havoc_value(f"{obj}_{attr}", o.fields.get(attr), st, hints)
+                cur = o.fields.get(attr)
+                if isinstance(cur, Ref) and isinstance(st.deref(cur), ListV):
+                    lv = st.deref(cur)
+                    tag = lv.tag if lv.items is None else (hints.get(f"{obj}.{attr}") if isinstance(hints.get(f"{obj}.{attr}"), str) else None)
+                    if tag not in SEQ_OF_TAG:
+                        raise Unsupported(f"list field {obj}.{attr} of unknown element type modified in a loop")
+                    nt = fresh(f"{obj}_{attr}", SEQ_OF_TAG[tag])
+                    if tag == "chunk":
+                        st.fact(Lemmas.list_basic(nt))
+                    st.heap[cur.oid] = ListV(tag=tag, t=nt)       # same object, unknown contents
+                    continue
+                o.fields[attr] = self.havoc_value(f"{obj}_{attr}", cur, st, hints)
             else:
                 raise Unsupported(f"attribute store {obj}.{attr} in a loop")
 
@@ -429,20 +444,21 @@ class LoopMixin:
         spec = self.get_loop_spec(node)
         hints = getattr(spec, "types", {}) or {}
         names, fields, mutated = self.assigned_in(node.body)
-        self.oblige(st, "inv0", self._inv(spec, st, z3.IntVal(0), {}), label=f"while@{node.lineno}")
+        self.inv_oblige(spec, st, z3.IntVal(0), {}, "inv0", f"while@{node.lineno}")
         outs = []
         s2 = st.clone()
         self.havoc(s2, names, fields, mutated, hints)
         k = fresh("k", T.I)
         s2.assume(k >= 0)
-        s2.assume(self._inv(spec, s2, k, {}))
+        s2.add_index(k)
+        self.inv_assume(spec, s2, k, {})
         s2.trace.append(f"while@{node.lineno}:iter")
         for s2b, guard in self._guard_states(node.test, s2):
             if not guard:
                 continue
             for s3, oc in self.exec_block(node.body, s2b):
                 if oc == NORMAL or oc[0] == "continue":
-                    self.oblige(s3, "invS", self._inv(spec, s3, k + 1, {}), label=f"while@{node.lineno} " + "/".join(s3.trace[-3:]))
+                    self.inv_oblige(spec, s3, k + 1, {}, "invS", f"while@{node.lineno} " + "/".join(s3.trace[-3:]))
                 elif oc[0] == "break":
                     outs.append((s3, NORMAL))
                 else:
@@ -451,7 +467,8 @@ class LoopMixin:
         self.havoc(s4, names, fields, mutated, hints)
         kx = fresh("kx", T.I)
         s4.assume(kx >= 0)
-        s4.assume(self._inv(spec, s4, kx, {}))
+        s4.add_index(kx)
+        self.inv_assume(spec, s4, kx, {})
         s4.trace.append(f"while@{node.lineno}:done")
         for s5, guard in self._guard_states(node.test, s4):
             if guard:
